@@ -69,6 +69,7 @@ class Interp:
         self.feas_solver = None
         self.bounded_loops = []                  # loops handled by bounded unrolling (reported as bounded)
         self.executed = set()                    # repo functions inlined while executing the unit
+        self.loop_index = []                     # symbolic index of the enclosing cut loop / quantified body
         self.unroll_bound = 3
 
     # ------------------------------------------------------------------ data roots
@@ -1052,8 +1053,12 @@ class Interp:
         # symbolic / shadowed callable
         if f.shadow is not None and f.root is not None and all(self.is_concrete_like(a) for a in args) and \
                 self.common_root([f] + list(args) + list(kwargs.values())) is not False:
-            yield from self.shadow_apply(st, lambda fn, *a, **k: fn(*a, **k), [f] + list(args), kwargs,
-                                         name="call_" + self.callee_name(node))
+            for s_, r_ in self.shadow_apply(st, lambda fn, *a, **k: fn(*a, **k), [f] + list(args), kwargs,
+                                            name="call_" + self.callee_name(node)):
+                if r_[0] == "ok" and f.tag and f.tag[0] == "method" and f.tag[2] in ("items", "keys", "values") \
+                        and not args and r_[1].kind != "const":
+                    r_[1].tag = (f.tag[2] + "_view", f.tag[1])
+                yield s_, r_
             return
         yield from self.handlers["$call_symbolic"](self, st, f, args, kwargs)
 
